@@ -110,7 +110,7 @@ Proof. intros H. unfold copy_into. apply N.leb_le in H. now rewrite H. Qed.
 
 Theorem dd_page_good : forall alim f flen ps flags size off, good (dd_page alim f flen ps flags size off).
 Proof.
-  intros. unfold dd_page.
+  intros. unfold dd_page, dd_page_gen.
   destruct (negb (extent_ok flen off size)); [auto|].
   destruct (negb (N.land flags DUMP_DH_COMPRESSED =? 0)).
   - destruct (get_chunk_cases alim f size off) as [[c [H _]]|[st [H Hs]]]; rewrite H; cbn [bind];
@@ -214,4 +214,27 @@ Qed.
     into a 4096-byte buffer (item 9) *)
 Theorem lkcd_page_unrepaired_refuted :
   lkcd_page false (fun _ => 0) 4096 DUMP_COMPRESS_RLE 6000 DUMP_COMPRESSED 0 = OOB.
+Proof. vm_compute. reflexivity. Qed.
+
+(** a raw page that is copied has exactly the size of the slot it is copied
+    into, and a decompressor is told the size of that slot *)
+Theorem dd_page_fits_slot : forall alim f flen ps flags size off a,
+  dd_page alim f flen ps flags size off = Ok a ->
+  match a with DdRaw => size = ps | DdDecompress _ cap => cap = ps end.
+Proof.
+  intros alim f flen ps flags size off a. unfold dd_page, dd_page_gen.
+  destruct (negb (extent_ok flen off size)); [discriminate|].
+  destruct (negb (N.land flags DUMP_DH_COMPRESSED =? 0)).
+  - destruct (get_chunk alim f size off); cbn [bind]; try discriminate.
+    intros H. injection H as <-. reflexivity.
+  - destruct (negb (size =? ps)) eqn:E; [discriminate|]. apply negb_false_iff, N.eqb_eq in E.
+    destruct (pread f size off); cbn [bind]; try discriminate.
+    destruct (copy_into ps size); cbn [bind]; try discriminate.
+    intros H. injection H as <-. exact E.
+Qed.
+
+(** checked against the header's block size (4096) while the slot has the
+    page size a later VMCOREINFO set (512): the copy leaves the slot *)
+Theorem dd_page_block_size_refuted :
+  dd_page_gen 1073741824 (fun _ => 0) 8192 4096 512 0 4096 0 = OOB.
 Proof. vm_compute. reflexivity. Qed.
